@@ -1068,6 +1068,24 @@ def c20(run):
         run.report("%s registry: sequence %d rejected (%s) at %s: expected %s, observed %s" % (
             kind, rj["trace"], rj["why"], json.dumps(rj["op"]), json.dumps(rj["expected"]), json.dumps(rj["logged"])),
             {"sequence": tr, "reject": rj, "rerun": "VERIF_SEED=%d bin/check C20" % run.seed}, {"kind": kind, "op": rj["op"].get("op")})
+    # naming: every constructor x requested prefix, the address-based Datadog constructor against a fake agent on loopback UDP
+    out, _ = run.go("^TestRegistryNaming$", timeout=300)
+    tp = os.path.join(out, "naming_trace.ndjson")
+    rows = vlib.read_ndjson(tp)
+    named = [x for x in rows if x["ev"] == "Naming"]
+    skipped = [x for x in rows if x["ev"] == "NamingSkipped"]
+    if len(named) < 8:
+        raise Machinery("naming cases are vacuous: %d judged, %d skipped" % (len(named), len(skipped)))
+    run.extra["registry_naming"] = {"cases": len(named), "skipped": [dict(ctor=x["ctor"], why=x["why"]) for x in skipped]}
+    if skipped:
+        run.assumptions.append("the address-based Datadog constructor was not exercised: " + skipped[0]["why"])
+    rejects = validate_trace(run, "RegistryTrace", "Registry_trace.cfg", tp, len(rows))
+    run.traces += len(named)
+    run.events += len(rows)
+    for rj in rejects:
+        run.report("%s registry built with prefix %s: %s: expected %s, observed %s" % (
+            rj["op"].get("ctor"), json.dumps(rj["op"].get("prefix")), rj["why"], json.dumps(rj["expected"]), json.dumps(rj["logged"])),
+            {"case": rows[rj["line"] - 1], "reject": rj, "rerun": "bin/check C20"}, {"kind": rj["op"].get("ctor"), "op": "naming", "prefix": rj["op"].get("prefix")})
     # emission: in-flight sample at the admission decision and the limit gauge, through the Limiter contract
     def lim_rj(r, tr):
         e, g = r.get("expected") or {}, r.get("logged") or {}
